@@ -157,7 +157,7 @@ def build_lib(kind="san", repo=None, hooks=True):
     return cdir
 
 
-def _prune_cache(keep=6):
+def _prune_cache(keep=30):
     cache = os.path.join(VERIF, ".cache")
     ds = [d for d in glob.glob(os.path.join(cache, "lib-*")) if ".tmp" not in d]
     ds.sort(key=lambda d: os.path.getmtime(d), reverse=True)
